@@ -14,6 +14,7 @@ import Shutter.Drive.EpochKG
 import Shutter.Drive.EonPk
 import Shutter.Drive.GnosisSlot
 import Shutter.Drive.ServiceTrigger
+import Shutter.Drive.Validate
 
 open Shutter
 
@@ -28,6 +29,7 @@ def dispatch (st : DState) (line : String) : DState × String :=
   | "EPK" :: rest => (st, Drive.EonPk.step rest)
   | "GS" :: rest => (st, Drive.GnosisSlot.step rest)
   | "ST" :: rest => (st, Drive.ServiceTrigger.step rest)
+  | "VAL" :: rest => (st, Drive.Validate.step rest)
   | "KG" :: rest => (st, Drive.EpochKG.step rest)
   | "SG" :: rest => (st, Drive.Signers.step rest)
   | "API" :: rest => (st, Drive.Api.step rest)
